@@ -9,6 +9,7 @@ CONSTANTS
   InputOps = {}
   Entries = {"run", "call", "evaluate"}
   TracerStyles = {"none", "native", "calls"}
+  Threadeds = {FALSE, TRUE}
   Flags = {}
 INVARIANT Restored
 INVARIANT Contained
